@@ -110,6 +110,8 @@ pub struct DeliveryRec {
     pub first_restarts: usize,
     /// did the event's `h` tag equal the Nostr group id the client had on record then?
     pub first_routed: bool,
+    /// highest epoch the client had ever been in when first handed the event
+    pub max_epoch_before: u64,
 }
 
 #[derive(Clone, Debug)]
@@ -1493,6 +1495,7 @@ impl World {
             let restarts = self.clients[m].restarts.len();
             let c = &mut self.clients[m];
             let reached = base.as_ref().map(|b| c.reached.contains(b)).unwrap_or(true);
+            let max_epoch = c.reached.iter().map(|k| k.epoch).max().unwrap_or(0);
             let at_base = base.is_some() && base == before_key;
             c.delivered
                 .entry(idx)
@@ -1510,6 +1513,7 @@ impl World {
                     last_outcome: outcome.clone(),
                     first_restarts: restarts,
                     first_routed: routed,
+                    max_epoch_before: max_epoch,
                 });
         }
         self.collect_rollbacks(m, &before_key, &outcome);
